@@ -2,6 +2,7 @@
 package main
 
 import (
+	"sync"
 	"time"
 	"fmt"
 	"os"
@@ -125,7 +126,20 @@ func main() {
 					fs, nums, ids := mkfds(scratch, k)
 					msg := unixsocket.Msg{Fds: nums}
 					if op["bad_fd"] == true {
-						msg.Fds = append(msg.Fds, 987654)
+						// a number that is no open descriptor (too large, or negative as a closed *os.File reports), at the end, the start or in the middle
+						bv := 987654
+						if v := hx.Int(op["bad_val"]); v != 0 {
+							bv = int(v)
+						}
+						switch op["bad_pos"] {
+						case "start":
+							msg.Fds = append([]int{bv}, msg.Fds...)
+						case "middle":
+							h := len(msg.Fds) / 2
+							msg.Fds = append(append(append([]int{}, msg.Fds[:h]...), bv), msg.Fds[h:]...)
+						default:
+							msg.Fds = append(msg.Fds, bv)
+						}
 					}
 					if op["cred"] == true {
 						msg.Cred = &syscall.Ucred{Pid: int32(os.Getpid()), Uid: uint32(os.Getuid()), Gid: uint32(os.Getgid())}
@@ -194,6 +208,62 @@ func main() {
 			a.Close()
 			b.Close()
 			return map[string]any{"obs": obs, "fd_delta": after - before, "pid": os.Getpid(), "uid": os.Getuid(), "gid": os.Getgid()}
+		case "duplex": // both directions of one framed connection in use at the same time (as the host's and the container's loops use it)
+			a, b, err := unixsocket.NewSocketPair()
+			if err != nil {
+				return map[string]any{"harness_err": err.Error()}
+			}
+			fa, fb := container.NewFramedVerif(a), container.NewFramedVerif(b)
+			n, size := int(hx.Int(c["n"])), int(hx.Int(c["size"]))
+			var mu sync.Mutex
+			fail := ""
+			setFail := func(s string) {
+				mu.Lock()
+				if fail == "" {
+					fail = s
+				}
+				mu.Unlock()
+			}
+			var wg sync.WaitGroup
+			send := func(s interface {
+				SendMsg(any, unixsocket.Msg) error
+			}, salt int) {
+				defer wg.Done()
+				for i := 0; i < n; i++ {
+					if err := s.SendMsg(MsgB{Seq: i, Data: pattern(size, i+salt)}, unixsocket.Msg{}); err != nil {
+						setFail(fmt.Sprintf("send %d: %v", i, err))
+						return
+					}
+				}
+			}
+			recv := func(s interface {
+				RecvMsg(any) (unixsocket.Msg, error)
+			}, salt int) {
+				defer wg.Done()
+				for i := 0; i < n; i++ {
+					var v MsgB
+					if _, err := s.RecvMsg(&v); err != nil {
+						setFail(fmt.Sprintf("receive %d: %v", i, err))
+						return
+					}
+					if v.Seq != i || string(v.Data) != string(pattern(size, i+salt)) {
+						setFail(fmt.Sprintf("message %d arrived changed (seq %d, %d bytes)", i, v.Seq, len(v.Data)))
+						return
+					}
+				}
+			}
+			wg.Add(4)
+			go send(fa, 1000)
+			go recv(fb, 1000)
+			go send(fb, 5000)
+			go recv(fa, 5000)
+			finished := hx.Guard(60*time.Second, wg.Wait)
+			a.Close()
+			b.Close()
+			if !finished {
+				setFail("the exchange did not finish within 60 s")
+			}
+			return map[string]any{"fail": fail}
 		case "framed": // a history of typed messages through the gob-framed layer
 			a, b, err := unixsocket.NewSocketPair()
 			if err != nil {
